@@ -234,7 +234,7 @@ def linear_bounded_optimum_reached(result, residual, bounds, x0):
     if ref is None or not MON.extra.get("converged"):
         return True
     f1, m = _objective(residual.fn, np.asarray(result[0], float).ravel())
-    f0 = MON.extra.get("obj0", f1)
+    f0 = max(MON.extra.get("obj0", f1), MON.extra.get("restart_obj0", 0.0))    # the problem's scale: objective at the original start
     MON.extra["gap"] = f1 - ref
     return f1 <= ref + 1e-8 * (abs(f0) + abs(ref)) + _tol(m, f0, ref)
 
@@ -301,7 +301,7 @@ def _instrument():
     ls = least_squares
     for cond, err in LS_CLAUSES:                # icontract evaluates stacked post-conditions in order of application
         ls = icontract.ensure(cond, error=err)(ls)
-    _INSTR.update(mz=mz, ls=ls)
+    _INSTR.update(mz=mz, ls=ls, raw_ls=orig_ls)
     return _INSTR
 
 
@@ -329,6 +329,8 @@ def problem_specs():
             "eps": draw(st.sampled_from(["default", "default", "1e-6", "1e-4"])),
             "active": draw(st.booleans()),
         }
+        if draw(st.integers(0, 3 if fam == "linear_deficient" else 9)) == 0:
+            s["restart"] = True
         return s
 
     return spec()
@@ -517,9 +519,27 @@ def check_problem(s, P):
     """Run one problem through the contract-instrumented solver; record everything on P (core.Part or Ctx)."""
     ins = _instrument()
     pr = build_problem(s)
+    restart_obj0 = None
+    if s.get("restart"):
+        restart_obj0 = _objective(pr["fn"], pr["x0"] if pr["bounds"] is None else np.clip(pr["x0"], *pr["bounds"]))[0]
+        # history relation: the monitored solve starts at the point an earlier (unmonitored) solve of the same problem returned -
+        # mu = 0 at an (almost) stationary point, where a singular Gauss-Newton Hessian yields null-space steps whose objective
+        # change is pure rounding; every clause of the property applies to this start point like to any other
+        try:
+            mjx0 = ins["raw_ls"](pr["x0"].copy(), pr["fn"], bounds=None if pr["bounds"] is None else [b.copy() for b in pr["bounds"]],
+                                 jacobian=pr["jac"], eps=pr["eps"], x_scale=pr["x_scale"], max_iter=100,
+                                 verbose=ins["mz"].Verbosity.SILENT, output=io.StringIO())[0]
+            mjx0 = np.asarray(mjx0, float).ravel()
+            if mjx0.shape == pr["x0"].shape and np.all(np.isfinite(mjx0)):
+                pr["x0"] = mjx0.copy()
+                P.count("restart_at_returned_point")
+        except Exception:
+            P.count("restart_first_solve_raised")
     proxy = RecordingProxy(pr["fn"], *(pr["bounds"] if pr["bounds"] is not None else (None, None)))
     MON.last = None
     MON.extra = {}
+    if restart_obj0 is not None and math.isfinite(restart_obj0):
+        MON.extra["restart_obj0"] = restart_obj0
     if pr["linear"] is not None:
         MON.extra["linear_ref"] = _linear_reference(pr["linear"], pr["bounds"])
     x0_in = pr["x0"].copy()
@@ -622,7 +642,29 @@ def check_problem(s, P):
 
 
 # ------------------------------------------------------------------------------------------------------------------
+# Witnesses of mechanisms found earlier, re-run on every run (a regression corpus; the random generator reaches these
+# configurations about once in 10^4 problems).  [0]: rank-deficient linear problem, far start, mu = 0 at an almost stationary
+# point: mju_boxQP returns a null-space step with grad.dx > 0 and the Armijo test used to accept a (rounding-sized)
+# objective increase (fixed in the repository: 533253662).
+DIRECTED_SPECS = [
+    {"family": "linear_deficient", "n": 4, "extra": 3, "dseed": 4, "bmode": "mixed", "bkind": ["onesided_hi"] * 4,
+     "start": ["out_lo", "out_lo", "out_lo", "ulp_hi"],
+     "u": [0.8057722855292575, 0.3284269317070257, 0.9148996346202796, 0.9148996346202796],
+     "xscale": "vector", "jac": "fd", "eps": "1e-6", "active": False},
+]
+
+
 def worker(case):
+    if case.get("directed"):
+        P = core.Part()
+        MON.evals = {}
+        for s in DIRECTED_SPECS:
+            with np.errstate(all="ignore"):
+                check_problem(dict(s), P)
+            P.count("directed_witness_specs")
+        for k, v in MON.evals.items():
+            P.count("contract_evals:" + k, v)
+        return P.result()
     import hypothesis
     from hypothesis import HealthCheck, Phase, given, settings
     P = core.Part()
@@ -652,6 +694,7 @@ def run(ctx):
     total = ctx.pick(2400, 60000)
     per = ctx.pick(150, 750)
     cases = [{"hseed": core.stable_hash("C46", ctx.seed, i) % (2 ** 63), "n": per} for i in range(total // per)]
+    cases.append({"directed": True})
     results = par.run("vf.props.c46", "worker", cases, nproc=16, timeout=ctx.pick(600, 3000), chunk=1)
     viols = []
     for c, r in zip(cases, results):
